@@ -1048,7 +1048,14 @@ class Process(StateMachine, persistence.Savable, metaclass=ProcessStateMachineMe
                     ) from exc
                 else:
                     while asyncio.isfuture(result):
-                        result = await result
+                        try:
+                            result = await result
+                        except asyncio.CancelledError:
+                            if result.cancelled():
+                                # the action behind the callback was cancelled, tell the caller so
+                                kiwi_future.cancel()
+                                return
+                            raise
 
                     kiwi_future.set_result(result)
 
